@@ -157,6 +157,15 @@ where
         let kinds: Vec<String> = r.violations.iter().map(|v| format!("{:?}", v.kind)).collect();
         kinds.join("+")
     }))));
+    // the public PART validators of Level 3 (topology::manifold, Euler), each called on its own
+    out.obs("p_connected", if catch(|| tds.is_connected()) == Ok(true) { "ok" } else { "err" });
+    out.obs("p_coherent", if catch(|| tds.is_coherently_oriented()) == Ok(true) { "ok" } else { "err" });
+    if let Ok(Ok(f2c)) = catch(|| tds.build_facet_to_cells_map()) {
+        use delaunay::topology::manifold::{validate_closed_boundary, validate_facet_degree, validate_ridge_links};
+        out.obs("p_facet_degree", &verdict(catch(|| validate_facet_degree(&f2c))));
+        out.obs("p_closed_boundary", &verdict(catch(|| validate_closed_boundary(tds, &f2c))));
+        out.obs("p_ridge_links", &verdict(catch(|| validate_ridge_links(tds))));
+    }
     if l4 {
         out.obs("dt_is_valid", &verdict(catch(|| dt.is_valid())));
         out.obs("via_flips", &verdict(catch(|| dt.is_delaunay_via_flips())));
